@@ -285,6 +285,17 @@ def cases(rng, tier, extended=False):
             if k % 10 == 2:
                 yield Case(line("ecm_curve", n, a, d, (0, 1, 1), b1, b2), o=False, tag="neutral")
                 yield Case(line("ecm_curve", n, a, d, (0, 0, 0), b1, b2), o=False, tag="zero")
+    # --- the roots_eval path (d1 >= 4000) and B2 values between the labels of the table (nearest row, ties): K; O = soundness
+    for k in range((8 if q else 80) * mul):
+        a = rng.choice([1, -1])
+        p = gen.next_prime(rng.randrange(1 << 20, 1 << 24))
+        qq = gen.next_prime(rng.randrange(1 << 40, 1 << 41))
+        n = p * qq
+        d, G = curve_modn(rng, n, a)
+        z = rng.randrange(1, n)
+        b2 = POLY_ROW[0] if k % 2 == 0 else rng.choice([0, 1, 659, 870, 871, 1500, 2460, 4020, 100000, 2000000])
+        yield Case(line("ecm_curve", n, a, d, (G[0] * z % n, G[1] * z % n, z), rng.choice([16, 30, 50]), b2),
+                   tag=f"f={p},{qq}|{'poly' if stage2_row(b2)[1] >= 4000 else 'b2'}")
     # --- explicit blocks: empty stage 1, more than GCD_INTERVAL = 1000 blocks (chunk boundary), a 1024-bit block
     for k in range((6 if q else 40) * mul):
         b2, d1, d2 = rng.choice(ROWS[:2])
